@@ -454,6 +454,17 @@ def run(shard, ctx):
     os.makedirs(os.path.join(devnode.base(), "disk", "by-id"), exist_ok=True)
     more_nodes = [devnode.new_node(n) for n in ("sg12", "sda", "sdb1", "st0", "nst0", "sr0", "sr1", "scd0", "cdrom", "cdrw", "dvd", "nvme0n1", "bsg-0:0:0:0")]
     more_nodes.append(devnode.new_node(os.path.join("disk", "by-id", "wwn-0x5000c500a1b2c3d4"), link=True))
+    # names the library's source spells out and the recorded baseline does not have (vmon/srcdict.py; none on the unchanged tree)
+    import re as _re
+
+    from vmon import srcdict
+
+    for lit in srcdict.novel_strings()[:40]:
+        for word in _re.findall(r"[A-Za-z][A-Za-z0-9_-]{1,15}", lit)[:4]:
+            for nm in (word, word + "0", word + "1"):
+                if not os.path.lexists(os.path.join(devnode.base(), nm)):
+                    more_nodes.append(devnode.new_node(nm))
+                    ctx.count("node_names_from_source_literals")
     # a udev link resolved by hand (dirname(link) + readlink(link)): '..' components that stay inside the device directory
     more_nodes.append(os.path.join(devnode.base(), "disk", "by-id", "..", "..", "sda"))
     more_nodes.append(os.path.join(devnode.base(), "disk", "..", "sr0"))
